@@ -161,7 +161,8 @@ Proof. unfold zlen. rewrite rev_length. reflexivity. Qed.
 Lemma init_state_out rl s : init_state rl = Ok s -> c_out s = [] /\ c_count s = count rl.
 Proof.
   unfold init_state. intros EI.
-  destruct (rebuild rl ii_init (s_y rl) (s_m rl)); cbn [bind] in EI; [|discriminate].
+  destruct (if (freq rl =? WEEKLY) && truthy (bysetpos rl) then _ else _) as [[[y0 m0] d0] w0].
+  match type of EI with bind ?r _ = _ => destruct r; cbn [bind] in EI; [|discriminate] end.
   match type of EI with bind ?r _ = _ => destruct r; cbn [bind] in EI; [|discriminate] end.
   inversion EI; subst; auto.
 Qed.
